@@ -40,7 +40,7 @@ def run(ctx: Ctx) -> int:
         "per reported path one z3 query constrains a run of the control-flow semantics (symbolic call stack of return addresses and activation ids) to produce exactly the "
         "reported block sequence from pc 0 to a terminating instruction without repeating a block inside one activation; per block and detector field the direct-check "
         "exploration decides whether the dangerous value is excluded there; duplicates and the textual/JSON renderings are compared on the real objects (by-product, not solver-decided)",
-        [du.detect_missing_tx_field_validations, du.validated_in_block, ExecutionPaths.to_json, ExecutionPaths._short_notation],
+        [lambda: du.detect_missing_tx_field_validations, lambda: du.validated_in_block, lambda: ExecutionPaths.to_json, lambda: ExecutionPaths._short_notation],
         {"unroll": 2, "call_depth": 3},
         ["'excluded at a block' is read at block level and per field (the weakest reading the sentence admits); blocks inside a subroutine (transitively) called from several sites use the call-site-insensitive path set"],
     )
